@@ -386,7 +386,14 @@ class LocationDB(object):
             foreign_names = location_db.get_location_names(foreign_loc_key)
             foreign_offset = location_db.get_location_offset(foreign_loc_key)
             if foreign_names:
-                init_name = list(foreign_names)[0]
+                # Start from a name already known here, if any, so that the
+                # foreign location is mapped on the existing one
+                names = sorted(foreign_names)
+                known_names = [
+                    name for name in names
+                    if self.get_name_location(name) is not None
+                ]
+                init_name = known_names[0] if known_names else names[0]
             else:
                 init_name = None
             loc_key = self.add_location(offset=foreign_offset, name=init_name,
